@@ -241,6 +241,7 @@ def _run(plan, scratch, log, stats, violation):
     for ci in order:
         out = scratch.file(f"score_chunk_{ci}.h5")
         before = len(RS.calls)
+        pipe.LEFTOVERS["on_rerun"] = [lambda before=before: RS.calls.__delitem__(slice(before, None))]
         try:
             if shared is not None:
                 res = score_chunk(scorer=shared["scorer"], thetas=shared["thetas"], screen=shared["screen"],
@@ -311,6 +312,7 @@ def _run(plan, scratch, log, stats, violation):
     sub_rng(plan["order_seed"], "arrival").shuffle(arrival)
     stats.fault("order.permute")
     sel_out = scratch.file("selected_plate")
+    pipe.LEFTOVERS["on_rerun"] = [lambda: RP.calls.clear()]
     try:
         if plan["path"] == "cli":
             got = pipe.p_select(spath, arrival, sel_out, policy=None if plan["policy"] == "none" else "RecordingPolicy",
